@@ -378,13 +378,15 @@ def search_graphs(ctx):
     for n, es in graphcap.all_multigraphs(3, 3, loops=True):
         if any(a == b for a, b in es):
             yield "loops", n, es, None
-    lim5 = 6 if (ctx.thorough or ctx.deep) else 4
+    lim5 = 6 if ctx.thorough else (5 if ctx.deep else 4)
     for n, es in graphcap.all_multigraphs(5, lim5):
         if n == 5 and len(es) >= 3:
+            if not ctx.thorough and rng.random() < (0.8 if len(es) >= 5 else (0.3 if ctx.deep else 0.65)):
+                continue
             yield "five", n, es, None
     if ctx.thorough:
         for n, es in graphcap.all_multigraphs(6, 5):
-            if n == 6 and len(es) >= 4:
+            if n == 6 and len(es) >= 4 and (len(es) == 4 or rng.random() < 0.15):
                 yield "six", n, es, None
     for _ in range(300 if ctx.thorough else (120 if ctx.deep else 60)):
         n, es = graphcap.random_multigraph(rng, 9)
